@@ -4,3 +4,6 @@ package api
 
 // VerifCrashPoint is a no-op unless built with the "verif" tag.
 func VerifCrashPoint(string) {}
+
+// VerifReadFault never fails unless built with the "verif" tag.
+func VerifReadFault(string) error { return nil }
